@@ -1,6 +1,7 @@
 package main
 
 import (
+	"go/constant"
 	"go/token"
 	"go/types"
 	"sort"
@@ -233,6 +234,52 @@ func ruleDeadlineDirection(c *Ctx, r *R) {
 		r.ok(isParamOf(D, chain, dP), key+"|d-is-param", al.Pos(), "the d reported (and compared) must be the requested duration")
 		// remaining is exactly time.Until(deadline) with deadline from ctx.Deadline()
 		exact := false
+		// remaining, ok := untilDeadline(ctx); ok && remaining < d: the pair comes from a helper of the package - where its
+		// second result is true, the first is what the one return with a constant true yields, and that return's guards hold
+		R0 := R
+		helperHasDeadline := false
+		var helperOK ssa.Value
+		if ex, isEx := R.(*ssa.Extract); isEx {
+			if hc, isCall := ex.Tuple.(*ssa.Call); isCall {
+				if h := staticCallee(&hc.Call); h != nil && h.Blocks != nil && rootFn(origin(h)).Pkg == rootFn(fn).Pkg && h.Signature.Results().Len() == 2 && isBoolType(h.Signature.Results().At(1).Type()) && ex.Index == 0 {
+					var trueRet *ssa.Return
+					nTrue, clean := 0, true
+					instrs(origin(h), func(_ *ssa.BasicBlock, _ int, in2 ssa.Instruction) {
+						ret, ok := in2.(*ssa.Return)
+						if !ok || len(ret.Results) != 2 {
+							return
+						}
+						k, isK := returnedValue(ret, 1).(*ssa.Const)
+						if !isK || k.Value == nil {
+							clean = false
+							return
+						}
+						if constant.BoolVal(k.Value) {
+							nTrue++
+							trueRet = ret
+						}
+					})
+					if clean && nTrue == 1 {
+						R = returnedValue(trueRet, 0)
+						chain = append(append([]*ssa.Call{}, chain...), hc)
+						for _, g := range guardsOf(trueRet.Block()) {
+							if v, val := g.boolVal(); val {
+								if e2, ok := v.(*ssa.Extract); ok && e2.Index == 1 {
+									if dc, ok := e2.Tuple.(*ssa.Call); ok && dc.Call.IsInvoke() && dc.Call.Method.Name() == "Deadline" {
+										helperHasDeadline = true
+									}
+								}
+							}
+						}
+						for _, ref := range refsOf(hc) {
+							if e1, ok := ref.(*ssa.Extract); ok && e1.Index == 1 {
+								helperOK = e1
+							}
+						}
+					}
+				}
+			}
+		}
 		if call, ok := R.(*ssa.Call); ok {
 			if cal := call.Call.StaticCallee(); cal != nil && cal.Pkg != nil && cal.Pkg.Pkg.Path() == "time" {
 				var dl ssa.Value
@@ -256,6 +303,7 @@ func ruleDeadlineDirection(c *Ctx, r *R) {
 		r.ok(exact, key+"|remaining-exact", al.Pos(), "remaining must be exactly the time until ctx's deadline (time.Until(deadline)); rounding or offsetting it moves the boundary of 'deadline closer than d'")
 		// guard direction: at the place the value is built, or - the would-be error is built first and returned only `if
 		// tooSoon.applies()` - at every return that reports it (the helper's comparison is read through the call)
+		R, chain = R0, dd.calls
 		env := provEnv{chain: chain}
 		wantLT := []string{symOf(R, env).String() + " < " + symOf(D, env).String(), symOf(R, env).String() + " <= " + symOf(D, env).String(),
 			symOf(D, env).String() + " > " + symOf(R, env).String(), symOf(D, env).String() + " >= " + symOf(R, env).String()}
@@ -283,6 +331,9 @@ func ruleDeadlineDirection(c *Ctx, r *R) {
 						if dc, ok := ex.Tuple.(*ssa.Call); ok && dc.Call.IsInvoke() && dc.Call.Method.Name() == "Deadline" {
 							hasDeadline = true
 						}
+					}
+					if helperOK != nil && v == helperOK && helperHasDeadline {
+						hasDeadline = true
 					}
 				}
 			}
@@ -1065,9 +1116,29 @@ var _ = late(func() {
 					}
 				}
 			}
+			// a field that only ever receives schedule's own result (t.timer = t.schedule()) is its output kept by the callers,
+			// not one of its inputs
+			fromSch, other := map[string]bool{}, map[string]bool{}
+			for _, fn := range c.funcsOfPkg("xtime") {
+				instrs(fn, func(_ *ssa.BasicBlock, _ int, in ssa.Instruction) {
+					st, ok := in.(*ssa.Store)
+					if !ok {
+						return
+					}
+					f := tickerField(st.Addr)
+					if f == "" || isNilConst(st.Val) {
+						return
+					}
+					if call, isCall := st.Val.(*ssa.Call); isCall && staticCallee(&call.Call) == sch {
+						fromSch[f] = true
+					} else {
+						other[f] = true
+					}
+				})
+			}
 			params := map[string]bool{}
 			for f := range read {
-				if !written[f] {
+				if !written[f] && !(fromSch[f] && !other[f]) {
 					params[f] = true
 				}
 			}
